@@ -201,7 +201,7 @@ package parser
 // The scope chain (scope.outer links) is written only when a scope is created; no parsing step re-links it,
 // and the condition and block of a conditional block are set once by the function that builds it; tokens and
 // finished binary expressions are not rewritten by later parsing steps; the formatting record is allocated once.
-//@ frameset parseFrame = parser.scope.outer, parser.ConditionalBlock.Condition, parser.ConditionalBlock.Block, parser.parser.formatting, parser.BinaryExpression, lexer.Token
+//@ frameset parseFrame = parser.scope.outer, parser.ConditionalBlock.Condition, parser.ConditionalBlock.Block, parser.parser.formatting, parser.parser.funcs, parser.BinaryExpression, lexer.Token
 
 //@ func (p *parser) parseTopLevelExpr() (n Node)
 //@   noverify the Pratt parser itself is not under contract; it advances the parser and may append diagnostics
@@ -255,7 +255,7 @@ package parser
 //@   modifies allbut parseFrame
 //@ func (p *parser) parseBlock() (b *BlockStatement)
 //@   noverify statement list; declarations go into the current scope, nested blocks open and close their own
-//@   ensures p.scope == old(p.scope) && p.cur != nil && p.peek != nil
+//@   ensures b != nil && p.scope == old(p.scope) && p.cur != nil && p.peek != nil
 //@   modifies allbut parseFrame
 //@ func (p *parser) parseIfBlock() (b *BlockStatement)
 //@   noverify statement list of an if branch
@@ -336,4 +336,40 @@ package parser
 //@   ensures[C01 right-operand-at-operator-precedence] ncalls("(*parser).parseExpr") == 1 && callarg("(*parser).parseExpr", 1, 1) == old(ite(has(precedences, p.cur.Type), precedences[p.cur.Type], 0))
 //@   ensures[C04 C05 operator-application-checked] n != nil ==> ncalls("(*parser).validateBinaryType") == 1 && is(n, *BinaryExpression) && callarg("(*parser).validateBinaryType", 1, 1).(*BinaryExpression) == n.(*BinaryExpression)
 //@   ensures[C01 no-operand-no-expression] callres("(*parser).parseExpr", 1, 0) == nil ==> n == nil && ncalls("(*parser).validateBinaryType") == 0
+//@   modifies allbut parseFrame
+
+// ---- C03: parsing is total - a function declaration without a valid name is reported, not dereferenced ----
+
+//@ func (p *parser) advanceTo(pos int) ()
+//@   noverify token cursor
+//@   ensures p.scope == old(p.scope) && p.cur != nil && p.peek != nil
+//@   modifies allbut parseFrame
+
+// parseFuncDefSignature returns nil when the signature is invalid (it has reported the error then).
+//@ func (p *parser) parseFuncDefSignature() (fd *FuncDefStmt)
+//@   noverify signature parsing is not under contract
+//@   ensures p.scope == old(p.scope) && p.cur != nil && p.peek != nil && (fd != nil ==> fd.token != nil)
+//@   modifies allbut parseFrame
+
+//@ func (p *parser) parseFuncSignatures(funcs []int) ()
+//@   props C03
+//@   requires p.funcs != nil
+//@   modifies allbut parseFrame
+//@   loop 1 modifies allbut parseFrame
+//@   loop 1 invariant p.funcs != nil
+
+//@ func (p *parser) addParamsToScope(fd *FuncDefStmt) ()
+//@   noverify declares the parameters in the function's scope
+//@   ensures p.scope == old(p.scope) && p.cur != nil && p.peek != nil
+//@   modifies allbut parseFrame
+
+//@ func (p *parser) appendError(message string) ()
+//@   noverify appendErrorForToken at the current token
+//@   ensures p.scope == old(p.scope) && p.cur != nil && p.peek != nil
+//@   modifies allbut parseFrame
+
+//@ func (p *parser) parseFunc() (n Node)
+//@   props C03 C10
+//@   requires p.cur != nil && p.peek != nil && p.funcs != nil && p.scope != nil
+//@   ensures[C10 scope-restored] p.scope == old(p.scope)
 //@   modifies allbut parseFrame
